@@ -1574,6 +1574,29 @@ fn script_many_inputs(h: &mut Hist, r: &mut Rng) {
         h.w.names.reg_tx(tx);
         let _ = h.op_batch(&u, &[tx.clone()], label);
     }
+    // (f) a coin made INSIDE the batch, worth the largest value a coin may have, listed 256 times by another member of the
+    // batch: a repeated input is a double spend wherever the coin comes from (and 256 x 2^120 does not fit the total)
+    {
+        let fund = free[n].clone();
+        let maker = assemble(&h.wallet, TxKind::Normal, &[fund.clone()], vec![crate::txgen::out(at, 1u128 << 120, Denom::NewCustom), crate::txgen::out(at, fund.cdh.coin_data.value.0, Denom::Mel)], 0, vec![6]);
+        h.w.names.reg_tx(&maker);
+        let mut made_cd = maker.outputs[0].clone();
+        made_cd.denom = Denom::Custom(maker.hash_nosigs());
+        let made = WCoin { id: maker.output_coinid(0), cdh: CoinDataHeight { coin_data: made_cd.clone(), height: h.parts(&u).height }, spec: CovSpec::AlwaysTrue };
+        let fee_coin = WCoin { id: maker.output_coinid(1), cdh: CoinDataHeight { coin_data: maker.outputs[1].clone(), height: h.parts(&u).height }, spec: CovSpec::AlwaysTrue };
+        for times in [2usize, 256] {
+            let mut ins: Vec<WCoin> = vec![fee_coin.clone()];
+            for _ in 0..times {
+                ins.push(made.clone());
+            }
+            let mut out_cd = made_cd.clone();
+            out_cd.value = CoinValue(1u128 << 120);
+            let spender = assemble(&h.wallet, TxKind::Normal, &ins, vec![out_cd, crate::txgen::out(at, fee_coin.cdh.coin_data.value.0, Denom::Mel)], 0, vec![7, times as u8]);
+            h.w.names.reg_tx(&spender);
+            let _ = h.op_batch(&u, &[maker.clone(), spender.clone()], &format!("many-inputs:coin-made-in-the-batch-listed-{}-times", times));
+            let _ = h.op_batch(&u, &[spender, maker.clone()], &format!("many-inputs:coin-made-in-the-batch-listed-{}-times-spender-first", times));
+        }
+    }
     // and the honest one goes into a block
     if let Some(nu) = h.op_batch(&u, &[variants[0].0.clone()], "many-inputs:all-approved") {
         let _ = h.op_seal(&nu, None);
@@ -1760,6 +1783,29 @@ fn history_body(h: &mut Hist, r: &mut Rng, em: &Emphasis) {
         for _ in 0..nb {
             let (txs, label) = h.gen_batch(r, &unsealed, em);
             if let Some(next) = h.op_batch(&unsealed, &txs, &label) {
+                // what was validated a moment ago must not colour what is validated next (verdict memos, decoded-coin
+                // caches shared between snapshots): (a) a member of the accepted batch with its first signature
+                // destroyed, offered to the state the batch was applied to - the coins are unspent there, the covenant
+                // must run again and refuse; (b) then a different, properly signed spender of the same coins offered to
+                // the state AFTER the batch - the coins are gone there
+                if em.mutate > 0 && r.chance(1, 3) {
+                    let cands: Vec<(Transaction, Vec<WCoin>)> = h.pending_spenders.iter().filter(|(t, _)| t.sigs.iter().any(|s| !s.is_empty()) && txs.iter().any(|x| x.hash_nosigs() == t.hash_nosigs())).cloned().collect();
+                    if !cands.is_empty() {
+                        let (t0, ins) = cands[r.below(cands.len() as u64) as usize].clone();
+                        let mut bad = t0.clone();
+                        if let Some(sg) = bad.sigs.iter_mut().find(|s| !s.is_empty()) {
+                            *sg = vec![0u8; sg.len()].into();
+                        }
+                        let _ = h.op_batch(&unsealed, &[bad], "signature-destroyed-after-the-good-one-was-accepted");
+                        let mut again = t0.clone();
+                        again.data = r.bytes(5).into();
+                        if again.kind == TxKind::Normal {
+                            sign(&h.wallet, &mut again, &ins);
+                            h.w.names.reg_tx(&again);
+                            let _ = h.op_batch(&next, &[again], "second-spender-after-the-coins-were-looked-up-through-the-older-state");
+                        }
+                    }
+                }
                 unsealed = next;
                 let p = std::mem::take(&mut h.pending_spenders);
                 h.spent_in_block.extend(p);
